@@ -172,6 +172,9 @@ func (u Unsafe) DumpEntities() EntityDump {
 //
 // For world serialization with components and resources, see module [github.com/mlange-42/ark-serde].
 func (u Unsafe) LoadEntities(data *EntityDump) {
+	if traceEnabled {
+		defer u.world.traceBegin("Load", Entity{}, nil, nil, nil, nil, 0).end()
+	}
 	u.world.checkLocked()
 
 	if len(u.world.storage.entityPool.entities) > 2 || u.world.storage.entityPool.available > 0 {
